@@ -1126,7 +1126,7 @@ func TestC13(t *testing.T) {
 		profile := "scaled-" + kind + "-deleg-" + shape
 		if u.N(4, "carried") == 0 {
 			// the history starts from the exported reward state of a first chain
-			nb1 := u.Range(int(3*p.RewardInterval)+2, int(3*p.RewardInterval)+28, "nblocks1")
+			nb1 := u.Range(int(3*p.RewardInterval)+2, int(3*p.RewardInterval)+22, "nblocks1")
 			p = exportedChain(rt, h, p, profile+"-exported", newTempo(), nb1, 60)
 			profile += "-carried"
 		}
@@ -1160,7 +1160,7 @@ func TestC13Devnet(t *testing.T) {
 		}
 		profile := "devnet-" + kind + "-deleg-" + shape
 		if u.N(4, "carried") == 0 && p.RewardInterval <= 5 {
-			nb1 := u.Range(20, 130, "nblocks1")
+			nb1 := u.Range(20, 110, "nblocks1")
 			p = exportedChain(rt, h, p, profile+"-exported", newTempo(), nb1, 8)
 			profile += "-carried"
 		}
